@@ -60,11 +60,33 @@ DECLS = ("DECLARE f REAL\nDECLARE g REAL\nDECLARE i INTEGER\nDECLARE j INTEGER\n
 
 
 def gen_schedule(r):
-    frames = r.sample(FRAMES, r.randrange(2, 6))
+    # few frames / few regions and longer blocks, so that several pending blockers / readers meet one user / writer
+    frames = r.sample(FRAMES, r.randrange(2, 5))
+    pulses = [f for f in frames]
+    classical = r.sample(CLASSICAL, 6)
     body = []
-    for _ in range(r.randrange(2, 9)):
-        body.append(_rf_instruction(r, frames) if r.random() < 0.7 else r.choice(CLASSICAL))
+    for _ in range(r.randrange(3, 13)):
+        x = r.random()
+        if x < 0.45:
+            f = r.choice(pulses)
+            body.append(f"{r.choice(['', '', 'NONBLOCKING '])}PULSE {f} {_wave(r)}")
+        elif x < 0.7:
+            body.append(_rf_instruction(r, frames))
+        else:
+            body.append(r.choice(classical))
     return _deffs(frames) + DECLS + "\n".join(body) + "\n"
+
+
+def gen_memory_schedule(r):
+    regions = ["f", "g", "ro[0]", "ro[1]"]
+    ops = ["MOVE {a} 1.0", "MOVE {a} {b}", "ADD {a} {b}", "MUL {a} {a}", "SUB {a} 2.0", "EXCHANGE {a} {b}", "NEG {a}",
+           'SET-FREQUENCY 0 "rf" {a}', 'SHIFT-PHASE 0 "rf" {a}+{b}', 'NONBLOCKING CAPTURE 0 "ro_rx" flat(duration: 1e-6, iq: 1) {c}',
+           'NONBLOCKING RAW-CAPTURE 0 "ro_rx" 1e-6 raw[0]', 'NONBLOCKING PULSE 0 "rf" flat(duration: {a}, iq: 1)', "GT k {a} {b}", "LOAD {a} v i", "STORE v i {a}"]
+    body = []
+    for _ in range(r.randrange(3, 13)):
+        a, b = r.choice(regions), r.choice(regions)
+        body.append(r.choice(ops).format(a=a, b=b, c=r.choice(["ro[0]", "ro[1]"])))
+    return _deffs(['0 "rf"', '0 "ro_rx"']) + DECLS + "\n".join(body) + "\n"
 
 
 def gen_frame_match(r):
@@ -84,7 +106,8 @@ def gen_memory_accesses(r):
 
 
 def gen_type_check(r):
-    exprs = ["f", "g", "f + g", "2 * f", "f ^ 2", "cos(f)", "i", "f + i", "k", "sqrt(g) - pi", "f / (g + 1)", "-f", "v[1]", "exp(i)", "1.5", "f * 0"]
+    exprs = ["f", "g", "f + g", "2 * f", "f ^ 2", "cos(f)", "i", "f + i", "k", "sqrt(g) - pi", "f / (g + 1)", "-f", "v[1]", "exp(i)", "1.5", "f * 0",
+             "f ^ i", "2 ^ k", "f ^ g", "f + 0*i", "(k - k) + f", "0*undeclared + 1", "g - g", "f * (1 + 0*j)", "cis(f)", "f ^ (g + i)", "%v", "f + %v"]
     body = []
     for _ in range(r.randrange(2, 9)):
         if r.random() < 0.4:
@@ -93,6 +116,25 @@ def gen_type_check(r):
         else:
             body.append(r.choice(CLASSICAL + ["ADD f i", "AND f k", "MOVE k 1.0", "EXCHANGE f i", "LOAD k v i", "STORE v f g", "EQ f i j", "NOT f", "MOVE i 1.5", "ADD i 2.5"]))
     return _deffs(['0 "rf"']) + DECLS + "\n".join(body) + "\n"
+
+
+# "every expression argument of SET-*/SHIFT-* must be real-valued at any nesting depth: declared REAL memory, real
+#  numbers or pi, combined by operators and functions, with no variables"
+REAL_EXPRS = ["f", "g", "f + g", "2 * f", "f ^ 2", "cos(f)", "sqrt(g) - pi", "f / (g + 1)", "-f", "v[1]", "1.5", "f * 0", "f ^ g", "g - g",
+              "exp(f) * sin(v[3])", "pi", "-(f - 2.5) ^ (g * g)"]
+NOT_REAL_EXPRS = ["i", "f + i", "k", "exp(i)", "f ^ i", "2 ^ k", "f + 0*i", "(k - k) + f", "0*undeclared + 1", "f * (1 + 0*j)", "f ^ (g + i)", "%v",
+                  "f + %v", "%v - %v", "cos(sin(j))", "f / (g + k)", "-(-i)", "undeclared"]
+
+
+def gen_type_check_verdicts(r):
+    """programs of frame updates only, each built from expressions whose verdict the statement fixes"""
+    bad = r.random() < 0.5
+    n = r.randrange(1, 6)
+    exprs = [r.choice(REAL_EXPRS) for _ in range(n)]
+    if bad:
+        exprs[r.randrange(n)] = r.choice(NOT_REAL_EXPRS)
+    body = [f'{r.choice(["SET-FREQUENCY", "SET-PHASE", "SET-SCALE", "SHIFT-PHASE", "SHIFT-FREQUENCY"])} 0 "rf" {e}' for e in exprs]
+    return f"# expect {'error' if bad else 'ok'}\n" + _deffs(['0 "rf"']) + DECLS + "\n".join(body) + "\n"
 
 
 def gen_cfg(r):
@@ -151,6 +193,45 @@ def gen_two_programs(r):
     return _definitions(r) + "=====\n" + _definitions(r)
 
 
+def _frames_with_attributes(r):
+    out = ""
+    for f in r.sample(FRAMES[:4], r.randrange(0, 4)):
+        attrs = r.sample(['SAMPLE-RATE: 1.0', 'SAMPLE-RATE: 2.0', 'INITIAL-FREQUENCY: 1e6', 'HARDWARE-OBJECT: "a"', 'HARDWARE-OBJECT: "b"', 'CENTER-FREQUENCY: 3.0'], r.randrange(1, 4))
+        # (one value per attribute key)
+        seen, keep = set(), []
+        for a in attrs:
+            if a.split(":")[0] not in seen:
+                seen.add(a.split(":")[0])
+                keep.append(a)
+        out += f"DEFFRAME {f}:\n" + "".join(f"    {a}\n" for a in keep)
+    return out
+
+
+def gen_two_programs_with_frames(r):
+    return _frames_with_attributes(r) + _definitions(r) + "=====\n" + _frames_with_attributes(r) + _definitions(r)
+
+
+def gen_redefinitions(r):
+    """one program in which definitions are repeated with other values (first-added order, replacement in place)"""
+    out = []
+    for _ in range(r.randrange(4, 12)):
+        k = r.randrange(6)
+        n = r.choice("AB")
+        if k == 0:
+            out.append(GATEDEF.format(n="G" + n, a=r.choice("123")).rstrip("\n"))
+        elif k == 1:
+            out.append(f"DEFWAVEFORM w{n}:\n    {r.choice('123')}, 2")
+        elif k == 2:
+            out.append(f"DEFCAL X {r.choice(['0', '1', 'q'])}:\n    {r.choice(['Z', 'H', 'Y'])} {r.choice('345')}")
+        elif k == 3:
+            out.append(f"DEFCAL MEASURE {r.choice(['0', '1', 'q'])} addr:\n    {r.choice(['X', 'Y'])} {r.choice('67')}")
+        elif k == 4:
+            out.append(f"DECLARE m{n} {r.choice(['BIT', 'REAL'])}")
+        else:
+            out.append(r.choice(["X 0", "Y 1"]))
+    return "\n".join(out) + "\n"
+
+
 def _expr(r, depth, leaves, fns=("cos", "sin", "exp", "sqrt", "cis")):
     if depth == 0 or r.random() < 0.25:
         return r.choice(leaves)
@@ -163,8 +244,61 @@ def _expr(r, depth, leaves, fns=("cos", "sin", "exp", "sqrt", "cis")):
 
 
 def gen_eval_subst(r):
-    leaves = ["%x", "%y", "%z", "%w", "m[0]", "m[1]", "n[0]", "1.5", "2", "pi", "0.25", "%q", "m[7]"]
+    leaves = ["%x", "%y", "%z", "%w", "m[0]", "m[1]", "n[0]", "1.5", "2", "pi", "0.25", "%q", "m[7]", "0", "1", "k[0]"]
     return "\n".join(_expr(r, 3, leaves) for _ in range(8)) + "\n"
+
+
+def _poly(r, depth):
+    """expressions without singularities or branch cuts: + - *, division by a non-zero literal, powers 0..3, and the
+    entire functions cos / sin / exp -- so that `evaluates to the same value` has no floating-point corner to trip on"""
+    leaves = ["%x", "%y", "%z", "m[0]", "m[1]", "0", "1", "2", "3", "0.5", "pi", "%x", "%y"]
+    if depth == 0 or r.random() < 0.2:
+        return r.choice(leaves)
+    k = r.randrange(12)
+    if k < 7:
+        return f"({_poly(r, depth - 1)} {r.choice('+-*+-*')} {_poly(r, depth - 1)})"
+    if k == 7:
+        return f"({_poly(r, depth - 1)} / {r.choice(['2', '4', '0.5', '(-3)'])})"
+    if k == 8:
+        return f"({_poly(r, depth - 1)} ^ {r.choice('0123')})"
+    if k == 9:
+        return f"{r.choice(['cos', 'sin', 'exp'])}({_poly(r, depth - 1)})"
+    return f"(-{_poly(r, depth - 1)})"
+
+
+def gen_simplify(r):
+    return "\n".join(_poly(r, 4) for _ in range(10)) + "\n"
+
+
+def gen_simplify_shapes(r):
+    """the shapes the rewrite rules look for (affine sums, re-association, cancellation, distribution), with every
+    placement of the shared sub-term"""
+    atoms = ["%x", "%y", "%z", "m[0]", "2", "3", "0.5", "pi", "(%x + 1)", "cos(%y)"]
+    def prod(x, a):
+        return r.choice([f"{x} * {a}", f"{a} * {x}"])
+    def affine(x):
+        a, b = r.choice(atoms), r.choice(atoms)
+        return r.choice([f"({prod(x, a)} + {b})", f"({b} + {prod(x, a)})", f"({prod(x, a)} - {b})", f"({prod(x, a)})", f"({x} + {b})"])
+    out = []
+    for _ in range(10):
+        x = r.choice(["%x", "%y", "m[1]", "(%x * %y)"])
+        a, b, c = r.choice(atoms), r.choice(atoms), r.choice(atoms)
+        k = r.randrange(9)
+        if k <= 2:
+            out.append(f"{affine(x)} {r.choice('+-')} {affine(x)}")
+        elif k == 3:
+            out.append(f"({a} {r.choice('+-')} {b}) {r.choice('+-')} {c}")
+        elif k == 4:
+            out.append(f"{a} {r.choice('+-')} ({b} {r.choice('+-')} {c})")
+        elif k == 5:
+            out.append(f"({a} {r.choice('*/')} 2) {r.choice('*/')} 4")
+        elif k == 6:
+            out.append(f"({a} {r.choice('+-')} {x}) {r.choice('+-')} {x}")
+        elif k == 7:
+            out.append(f"(-{a}) {r.choice('+-*')} {r.choice([a, b])}")
+        else:
+            out.append(f"{prod(x, a)} {r.choice('+-')} {prod(x, b)}")
+    return "\n".join(out) + "\n"
 
 
 def gen_calibrations(r):
@@ -187,6 +321,26 @@ def gen_calibrations(r):
     return "# expect ok\n" + "\n".join(out + body) + "\n"
 
 
+def gen_expansions(r):
+    """calibration programs whose verdict is known: acyclic ones (also through parameters and measurements) must
+    expand, a calibration that reaches itself must be reported as recursive"""
+    k = r.randrange(6)
+    if k <= 1:
+        return gen_calibrations(r)
+    if k == 2:      # the same gate with other parameters is not a repetition
+        p = r.choice(["pi/2", "1.0", "2.0"])
+        return (f"# expect ok\nDEFCAL RX(%theta) 0:\n    RX({p}) 0\n    RZ(%theta) 0\nDEFCAL RX({p}) 0:\n    {r.choice(['NOP', 'X 0', 'RZ(0.5) 0'])}\n"
+                f"RX({r.choice(['0.5', '3.0', '%z'])}) 0\n")
+    if k == 3:      # measurements expanded by measurement calibrations
+        return ("# expect ok\nDECLARE ro BIT\nDEFCAL MEASURE 0 addr:\n    MEASURE 1 addr\n    X 0\nDEFCAL MEASURE 1 addr:\n    NOP\n"
+                f"DEFCAL X 0:\n    {r.choice(['NOP', 'MEASURE 1 ro'])}\nMEASURE 0 ro\nX 0\n")
+    if k == 4:      # a cycle through gates
+        a, b = r.sample(["A", "B", "C"], 2)
+        return f"# expect recursive\nDEFCAL {a} 0:\n    X 0\n    {b} 0\nDEFCAL {b} 0:\n    {a} 0\n{r.choice([a, b])} 0\n"
+    # a cycle through a measurement calibration
+    return ("# expect recursive\nDECLARE ro BIT\nDEFCAL MEASURE 0 addr:\n    X 0\n    MEASURE 0 addr\nMEASURE 0 ro\n")
+
+
 def gen_gate_match(r):
     out = []
     for _ in range(r.randrange(2, 8)):
@@ -199,7 +353,7 @@ def gen_gate_match(r):
         mod = r.choice(["", "", "", "DAGGER ", "CONTROLLED "])
         if r.random() < 0.5:
             q = "3 " if mod == "CONTROLLED " else ""
-            out.append(f"{mod}RX({r.choice(['pi', 'pi/2', '1.0', '0.5'])}) {q}{r.choice('012')}")
+            out.append(f"{mod}RX({r.choice(['pi', 'pi/2', '1.0', '0.5', '%a', '%a + 1'])}) {q}{r.choice('012')}")
         else:
             a, b = r.sample("0123", 2)
             out.append(f"{'DAGGER ' if mod == 'DAGGER ' else ''}CZ {a} {b}")
@@ -221,13 +375,41 @@ def gen_call(r):
     out = [f"PRAGMA EXTERN {s}" for s in sigs]
     out.append("DECLARE r REAL\nDECLARE s REAL[2]\nDECLARE k INTEGER\nDECLARE v REAL[3]\nDECLARE w REAL[4]\nDECLARE bits BIT[5]\nDECLARE o OCTET\nDECLARE b BIT")
     args = ["r", "s", "s[1]", "k", "v", "w", "bits", "bits[2]", "o", "b", "1", "2.5", "zz"]
+    # argument lists that fit each signature, perturbed in one position now and then
+    fitting = {"f": [["r", "s[1]", "k"], ["s[0]", "r", "k"], ["r", "2.5", "k"]], "g": [["k", "v"], ["3", "v"]], "h": [["k"]],
+               "p": [["bits", "o"], ["bits", "7"]], "q": [["b", "bits[2]", "s"], ["bits[1]", "b", "v"], ["b", "b", "w"]]}
     for _ in range(r.randrange(4, 12)):
-        out.append(f"CALL {r.choice('fghpq')} " + " ".join(r.choice(args) for _ in range(r.randrange(0, 5))))
+        name = r.choice("fghpq")
+        if r.random() < 0.7:
+            a = list(r.choice(fitting[name]))
+            if r.random() < 0.4 and a:
+                a[r.randrange(len(a))] = r.choice(args)
+            elif r.random() < 0.15:
+                a.append(r.choice(args))
+            out.append(f"CALL {name} " + " ".join(a))
+        else:
+            out.append(f"CALL {name} " + " ".join(r.choice(args) for _ in range(r.randrange(0, 5))))
+    return "\n".join(out) + "\n"
+
+
+def gen_extern_signatures(r):
+    out = []
+    for k in range(r.randrange(1, 6)):
+        ret = r.choice(["", "", "REAL", "INTEGER", "BIT", "OCTET"])
+        params = []
+        for j in range(r.randrange(0, 4)):
+            t = r.choice(["REAL", "INTEGER", "BIT", "OCTET"])
+            shape = r.choice(["", "", "[]", "[3]", "[1]"])
+            params.append(f"p{j} : {r.choice(['', 'mut '])}{t}{shape}")
+        if not ret and not params:
+            params.append("x : INTEGER")
+        sig = (ret + " " if ret and params else ret) + (f"({', '.join(params)})" if params else "")
+        out.append(f'PRAGMA EXTERN e{k} "{sig}"')
     return "\n".join(out) + "\n"
 
 
 def gen_loop(r):
-    n = r.randrange(0, 6)
+    n = r.randrange(0, 6) if r.random() < 0.93 else r.choice([255, 256, 65535, 65536, 65537, 70000])
     body = [r.choice(["X 0", "Y 1", "H 0", "CNOT 0 1", "PRAGMA foo", "NOP", "RX(0.5) 2", "MEASURE 0 ro"]) for _ in range(r.randrange(1, 6))]
     defs = r.choice(["", "DEFCAL X 0:\n    Y 0\n", "DECLARE ro BIT\n"])
     if "MEASURE 0 ro" in body and "DECLARE ro BIT" not in defs:
@@ -250,6 +432,27 @@ def gen_literals(r):
         else:
             out.append(str(r.randrange(0, 10 ** r.randrange(1, 22))))
     return "\n".join(out) + "\n"
+
+
+def gen_move_literals(r):
+    out = []
+    specials = [0, 1, -1, 5, 2 ** 31, 2 ** 32, 2 ** 53 + 1, 2 ** 63 - 1, 2 ** 63, 2 ** 63 + 1, 2 ** 64 - 1, 2 ** 64, -(2 ** 63), -(2 ** 63) - 1, -(2 ** 64), 10 ** 20]
+    for _ in range(10):
+        v = r.choice(specials) if r.random() < 0.6 else r.randrange(-(2 ** 65), 2 ** 65)
+        out.append(f"MOVE ro {v}")
+    return "\n".join(out) + "\n"
+
+
+def gen_statements(r):
+    """nearly valid statements with extreme or oddly placed literals (no-panic property)"""
+    lit = lambda: r.choice(["0", "1", "-1", "+1", "+1.0", "-1.5", "9223372036854775807", "-9223372036854775808", "9223372036854775808",
+                            "18446744073709551615", "18446744073709551616", "-18446744073709551615", "1e400", "-0", "0x10", "1.5i", "i", "pi"])
+    forms = ["MOVE ro {l}", "ADD ro {l}", "SUB ro[0] {l}", "MUL ro {l}", "DIV ro {l}", "AND ro {l}", "IOR ro {l}", "XOR ro {l}", "EQ ro ro {l}", "GT ro ro[1] {l}",
+             "LT ro ro {l}", "MOVE ro[{l}] 1", "DECLARE x BIT[{l}]", "LOAD ro ro ro[{l}]", "STORE ro ro {l}", "RX({l}) 0", "RX({l}*{l}) 0", "DELAY 0 {l}",
+             "X {l}", "MEASURE {l} ro", "JUMP-WHEN @a ro[{l}]", "PRAGMA foo {l}", "SHIFT-PHASE 0 \"rf\" {l}", "FENCE {l}", "RESET {l}", "CALL f {l}",
+             "DECLARE y REAL[2] SHARING ro OFFSET {l} BIT", "DEFGATE G AS PERMUTATION:\n    {l}, 1", "PULSE 0 \"rf\" flat(duration: {l}, iq: {l})",
+             "CAPTURE 0 \"rf\" flat(duration: 1, iq: 1) ro[{l}]", "RAW-CAPTURE 0 \"rf\" {l} ro", "ro[0", "MOVE ro[", "RX( 0", "EQ ro ro", "NONBLOCKING", "NONBLOCKING X 0"]
+    return "DECLARE ro BIT[2]\n" + "\n".join(r.choice(forms).replace("{l}", lit(), 1).replace("{l}", lit()) for _ in range(r.randrange(1, 5))) + "\n"
 
 
 def gen_tokens(r):
@@ -275,32 +478,36 @@ def gen_names(r):
 
 # kind -> (generator, how many inputs)
 GENERATORS = {
-    "frame_order": (gen_schedule, 250),
-    "memory_order": (gen_schedule, 250),
-    "frame_match": (gen_frame_match, 250),
-    "memory_accesses": (gen_memory_accesses, 200),
-    "type_check_oracle": (gen_type_check, 250),
-    "cfg_offsets": (gen_cfg, 400),
-    "instruction_views": (gen_program_defs, 250),
-    "used_qubits_other_ops": (gen_two_programs, 200),
-    "concat": (gen_two_programs, 200),
-    "eval_subst": (gen_eval_subst, 150),
-    "source_map_tiles": (gen_calibrations, 250),
-    "nested_map_tiles": (gen_calibrations, 250),
-    "expand_terminates": (gen_calibrations, 150),
-    "gate_match": (gen_gate_match, 250),
-    "measure_match": (gen_measure_match, 200),
-    "call_resolve": (gen_call, 200),
-    "loop_runs": (gen_loop, 150),
-    "expr_literal": (gen_literals, 100),
-    "parse_program": (gen_tokens, 1500),
-    "name_spelling": (gen_names, 150),
+    "frame_order": [(gen_schedule, 300)],
+    "memory_order": [(gen_memory_schedule, 250), (gen_schedule, 100)],
+    "frame_match": [(gen_frame_match, 250)],
+    "memory_accesses": [(gen_memory_accesses, 200)],
+    "type_check_oracle": [(gen_type_check, 300), (gen_type_check_verdicts, 300)],
+    "cfg_offsets": [(gen_cfg, 400)],
+    "instruction_views": [(gen_program_defs, 250)],
+    "used_qubits_other_ops": [(gen_two_programs, 200)],
+    "concat": [(gen_two_programs, 150), (gen_two_programs_with_frames, 150)],
+    "serialize_repeat": [(gen_redefinitions, 200)],
+    "eval_subst": [(gen_eval_subst, 150)],
+    "simplify_value": [(gen_simplify, 200), (gen_simplify_shapes, 200)],
+    "source_map_tiles": [(gen_calibrations, 250)],
+    "nested_map_tiles": [(gen_calibrations, 250)],
+    "expand_terminates": [(gen_expansions, 200)],
+    "gate_match": [(gen_gate_match, 250)],
+    "measure_match": [(gen_measure_match, 200)],
+    "call_resolve": [(gen_call, 250)],
+    "extern_roundtrip": [(gen_extern_signatures, 200)],
+    "loop_runs": [(gen_loop, 150)],
+    "expr_literal": [(gen_literals, 100)],
+    "literal_exact": [(gen_move_literals, 100)],
+    "parse_program": [(gen_tokens, 1000), (gen_statements, 1000)],
+    "name_spelling": [(gen_names, 150)],
 }
 
 
 def generate(kind, seed=20260922):
-    if kind not in GENERATORS:
-        return []
-    g, n = GENERATORS[kind]
-    r = random.Random(f"{seed}:{kind}")
-    return [g(r) for _ in range(n)]
+    out = []
+    for g, n in GENERATORS.get(kind, []):
+        r = random.Random(f"{seed}:{kind}:{g.__name__}")
+        out += [g(r) for _ in range(n)]
+    return out
